@@ -15,6 +15,9 @@ prop(
         dict(run="^TestPropFailoverSeq$",
              quick=dict(checks=256, shards=16, timeout=900, shrinktime='10s'),
              thorough=dict(checks=6400, shards=16, timeout=3600)),
+        dict(run="^TestPropSliceFaults$",
+             quick=dict(checks=320, shards=8, timeout=900, shrinktime='10s'),
+             thorough=dict(checks=16000, shards=16, timeout=3600)),
         dict(run="^TestPropChecks$",
              quick=dict(checks=440, shards=8, timeout=900),
              thorough=dict(checks=48000, shards=16, timeout=5400)),
@@ -30,7 +33,12 @@ prop(
          "5xx->healthy, refused->healthy, healthy->timeout, or drawn), 1-2 calls per phase, mostly the same request again, sometimes another endpoint or "
          "expression; the part-1 oracle applied per call to the contacts logged during that call, with pint's documented caching in mind: an upstream "
          "that already answered THIS request successfully may answer it again without being contacted; contact is demanded wherever no such answer "
-         "exists. Non-trivial (sequences): some upstream recovered between phases and an answer was obtained after that. part 2: 11 check "
+         "exists. Non-trivial (sequences): some upstream recovered between phases and an answer was obtained after that. slice faults: a 2-6 slice range query through [upstream 0 "
+         "with a per-slice fault table (503 / connection reset on some slices, the others answered; steps 2s-60s so that slice responses are large), healthy "
+         "upstream 1]: if a requested slice of upstream 0 hit a fault, upstream 1 must be contacted and answer; otherwise upstream 0 answers. "
+         "Fault modes are drawn by status CLASS: 5xx from {500,502,503,504,507,509,520-527,530,598,599} x body {empty, html, text, truncated JSON, "
+         "JSON envelope with errorType server_error/internal/unavailable/not_found, JSON envelope without errorType}, 4xx from {400,401,403,404,408,413,"
+         "422,429,499} x body kinds. part 2: 11 check "
          "constructors taking a Prometheus server (10 online checks + rule/duplicate) x generated alerting/recording rules (18 expressions covering "
          "absent, rate/irate/deriv, counters, vector matching, long ranges, plain selectors; for/labels/annotations variants) x the checks' documented settings (half of the cases: promql/series ignoreMetrics / lookbackRange / lookbackStep / "
          "ignoreLabelsValue through the context as the config block does, alerts/count range/step/resolve/minCount/severity/comment, query/cost limits/"
@@ -42,7 +50,11 @@ prop(
     level_text="Quick: rapid-drawn cells of the fault table. Thorough: every cell of the table listed above is executed once (TestFaultTable: "
                "1110 mode tuples x 12 endpoint/slices/required combinations = 13320 cells), i.e. the fault assignment space of the statement is "
                "enumerated; what is sampled rather than enumerated is timing (one run per cell) and, in part 2, the rules.",
-    level_note="Sequence cases: fake upstreams answer with Connection: close, the harness waits until every upstream has no open connection before "
+    level_note="Known-finding classes (decided from the case and the request logs, never from text; tolerated and counted only while listed, and then the "
+               "rest of the case is still judged; TestReplay ignores the listing): 5xx-json-envelope-without-error-type (mode http:<5xx>:jsonnotype: "
+               "such an upstream may be treated either way) and slice-cancel-error-masks-unavailability (kind slicefaults, upstream 0 served a faulty and "
+               "was asked a healthy slice, an error was returned and upstream 1 never contacted; timing dependent, so no second-run confirmation and the "
+               "replay retries up to 40 times). Sequence cases: fake upstreams answer with Connection: close, the harness waits until every upstream has no open connection before "
                "each call, and requests the client had already dropped when the server read them (cancelled slices of a failed range query) are not "
                "counted as contacts - otherwise a request of the previous call could be booked on the next one. "
                "A refused upstream cannot log contacts (nothing listens); its contact is inferred only through the upstreams after it. A truncated 200 "
